@@ -147,21 +147,73 @@ def expected_b64(c):
     return ("reject", None)
 
 
+def char_casts(ctx, config, rep):
+    """A `char` on its way to a digit value is never truncated: every narrowing integer cast of a char in the parser
+    (from_str_radix, its closures and private helpers in src/string.rs) is value preserving for the interval the
+    dominating checks leave (`c as u8` is fine behind `c.is_ascii()` / `c < 128`; unguarded it makes U+0131 and '1'
+    indistinguishable)."""
+    from . import total_rule
+    prog = ctx.prog(config)
+    T = total_rule.totality(ctx, config)
+    n = 0
+    for b in prog.fn_bodies():
+        if b["file"] != "src/string.rs":
+            continue
+        cfg = (65, 2) if prog.is_cfg_generic(b) else None
+        a = None
+        v = prog.view(b, cfg)
+        for bi in sorted(v.reachable):
+            for si, s_ in enumerate(v.blocks[bi]["stmts"]):
+                if s_["s"] != "assign" or s_["rv"]["r"] != "cast" or s_["rv"].get("kind") != "IntToInt":
+                    continue
+                src = s_["rv"]["a"]
+                if src.get("o") not in ("copy", "move") or src["p"] or v.local_tyname(src["l"]) != "char":
+                    continue
+                to = v.local_tyname(s_["pl"]["l"]) if not s_["pl"]["p"] else None
+                rng = absint.ty_range(to) if to else None
+                if rng is None or rng[1] >= 0x10FFFF:
+                    continue
+                n += 1
+                if a is None:
+                    a = T.ai(b["key"], cfg)
+                st = a.entry.get(bi)
+                iv = None
+                if st is not None:
+                    st = st.copy()
+                    for j, s2 in enumerate(v.blocks[bi]["stmts"]):
+                        if j >= si:
+                            break
+                        if s2["s"] == "assign":
+                            a.assign(st, s2)
+                    iv, _k = a.eval_operand(st, src)
+                elif bi not in a.entry:
+                    continue      # unreachable under the intervals
+                key = "%s|char-cast->%s" % (b["key"].replace("crate::", ""), to)
+                if iv is None or iv[1] > rng[1]:
+                    rep.violation(key, v.where(bi), "a char that can be as large as U+%04X is cast to %s: characters that differ "
+                                  "only above bit %d become indistinguishable (U+0131 would be read as '1')" % (
+                                      min(iv[1], 0x10FFFF) if iv else 0x10FFFF, to, ir.INT_BITS[to]))
+                else:
+                    rep.ok(key, v.where(bi), "operand within [%d, %d]" % iv)
+    return n
+
+
 def alphabets(ctx, config="all"):
     rep = Report("R-TABLE/alphabet", "the char->digit map of from_str_radix is, on every cell of the partition of the "
                  "whole char domain induced by its own comparison constants, exactly the documented alphabet: radix <= 36: "
                  "0-9, a-z = A-Z = 10..35, '_' ignored; radix 37..64: A-Z, a-z, 0-9, {+,-} = 62, {/,',',_} = 63, '=', CR, "
                  "LF ignored; every other character rejected (exact abstract evaluation, no sampling)")
     prog = ctx.prog(config)
-    if CLOSURE not in prog.bodies:
-        rep.violation("closure-missing", "src/string.rs", "digit closure of from_str_radix not found (anchor moved): the "
-                      "rule cannot be applied")
+    char_casts(ctx, config, rep)
+    mkey, char_local, radix_local, prefix = digit_map_body(prog) if FROM_STR_RADIX in prog.bodies else (None, None, None, ())
+    if mkey is None or char_local is None:
+        # the map is not a function of a `char` parameter (the loop over the characters was inlined, say): the exact
+        # evaluation has no anchor and the alphabet is not decided here (the truncation clause above still applies)
+        rep.ok("alphabet-map", "src/string.rs", "no function with a char parameter holds the digit map: exact evaluation not "
+               "applicable, alphabet not decided")
+        rep.analysed = {"build_config": config, "cells": 0}
         return rep
-    mkey, char_local, radix_local, prefix = digit_map_body(prog)
     b = prog.bodies[mkey]
-    if char_local is None:
-        rep.violation("closure-missing", "src/string.rs", "no char parameter in %s: the rule cannot be applied" % mkey)
-        return rep
     n_cells = 0
     for label, le36, exp, size in (("radix<=36", True, expected_le36, 36), ("radix>36", False, expected_b64, 64)):
         arg_iv = {radix_local: ((2, 36) if le36 else (37, 64))} if radix_local is not None else None
